@@ -198,7 +198,7 @@ def l1_chunk(args):
 
 
 # ------------------------------------------------------------------------------------------------ L1b: from full assignments
-PENALTIES = (0.5, 1.0, 3.0)
+PENALTIES = (0.5, 1.0, 3.0, 0.6 + 0.1 + 0.1, 0.8)      # the last two differ in the last bit only (0.7999999999999999 / 0.8)
 
 
 def l1b_all(_):
@@ -238,6 +238,7 @@ def l1b_all(_):
         ra.serialize(buf)
         buf.seek(0)
         return IA.BasicReadAssignment.deserialize_from_read_assignment(buf)
+    by_route = {}
     for p1, p2 in itertools.product(PENALTIES, PENALTIES):
         for sec1, sec2 in ((False, True), (True, False), (True, True)):
             for nt1, nt2 in ((1, 1), (2, 1), (2, 2)):
@@ -254,16 +255,26 @@ def l1b_all(_):
                         kept = sorted(o.assignment_id for o in objs if o.assignment_type != IA.ReadAssignmentType.suspended)
                         # reference: a primary inconsistent alignment is preferred; otherwise the lowest penalty wins, equal penalties tie
                         prim = [i for i, sec in enumerate((sec1, sec2)) if not sec]
+                        by_route.setdefault((p1, p2, sec1, sec2, nt1, nt2, order), {})[route] = kept
                         if prim:
                             exp = prim
                         else:
                             best = min(p1, p2)
                             exp = [i for i, p in enumerate((p1, p2)) if p == best]
+                        if abs(p1 - p2) < 1e-6 and p1 != p2 and not prim:
+                            continue          # penalties closer than the resolution of the saved stream: only the two routes have to agree
                         if kept != exp:
                             bad.append(("l1b:penalty-ignored" if len(kept) > len(exp) else "l1b:priority",
                                         (p1, p2, sec1, sec2, nt1, nt2, route, order),
                                         "two inconsistent alignments with penalties %s / %s (%s, records made by %s): kept %s, the lower penalty "
                                         "keeps %s" % (p1, p2, "both secondary" if not prim else "one primary", route, kept, exp)))
+    # default mode (stream) and --high_memory (constructor) must retain the same alignments
+    for case_, r in sorted(by_route.items(), key=str):
+        if len(r) == 2 and r["ctor"] != r["stream"]:
+            bad.append(("l1b:mode-dependent", case_[:6] + ("both", case_[6]),
+                        "penalties %r / %r: records made by the constructor (--high_memory) keep %s, records read from the saved stream "
+                        "(default) keep %s" % (case_[0], case_[1], r["ctor"], r["stream"])))
+            break
     return n, bad[:20]
 
 
